@@ -102,8 +102,6 @@ func c14dualRun(r *vfRand, c *c14dualCase, tr *zzc14.Trace) (*zzc14.Plan, string
 		return i
 	}
 	if err != nil {
-		plan.Close = func() error { return nil }
-		plan.CloseAt = 0
 		plan.Run(tr)
 		note := "ctor error: " + err.Error()
 		if n := h.EvBus.Open(); n != 0 {
